@@ -34,6 +34,24 @@ def run(ctx):
     if fn:
         sink = ("call", UPD + "cancel_tx_and_outputs")
         c.require_pass(ctx, R1, fid, UPD + "retrieve_txs", sink, "cancel_tx_and_outputs requires retrieve_txs Ok")
+        # a call that names no transaction (neither log id nor slate id) is refused: the rollback is reached only
+        # on an edge on which one of the two ids is Some
+        some_edges = set()
+        for pname, nth in (("tx_id", 0), ("tx_slate_id", 0)):
+            pl_ = c.param(fn, pname, "core::option::Option<u32>" if pname == "tx_id" else "core::option::Option<uuid::Uuid>", nth)
+            if pl_ is None:
+                continue
+            some_edges |= cfg.local_guard(fn, pl_, kind="option").ok
+            for b_, t_ in fn.calls():
+                nm_ = t_.get("f") or ""
+                if nm_.endswith(("Option::<T>::is_some", "Option::<T>::is_none")) and vf.base_local_of_ref(fn, t_["a"][0]) == pl_:
+                    g_ = cfg.call_guard(fn, b_)
+                    some_edges |= (g_.ok if nm_.endswith("is_some") else g_.fail)
+        sb_ = {b_ for b_, _t in cfg.find_calls(fn, UPD + "cancel_tx_and_outputs")}
+        h_id = bool(some_edges) and bool(sb_) and cfg.must_pass(fn, some_edges, sb_)[0]
+        run.instance(R1, {"fn": "tx::cancel_tx", "obligation": "the rollback is reached only when a log id or a slate id was given", "Some-edges": len(some_edges)}, held=h_id)
+        if not h_id:
+            run.finding(Finding(R1, fid, "cancel_tx called with neither a log id nor a slate id is not refused: it cancels the account's entry whenever the account holds exactly one", site=fn.loc()))
         # path enumeration: every path reaching the sink has tx_vec.len()==1 edge, type in cancellable set, !confirmed
         pe = dectree.PathEnum(fn, db)
         sinks = {b for b, _ in cfg.find_calls(fn, UPD + "cancel_tx_and_outputs")}
